@@ -207,12 +207,17 @@ CropL(L, R) ==
                      ELSE [j \in 1..nr.h |-> [i \in 1..nr.w |-> At(L, i - 1 + sx, j - 1 + sy)] \o <<>>] \o <<>>]
 
 \* ---------------------------------------------------------------------------------------------- documents
-\* [bw, bh, cur, sel, layers]; cur = index of the current layer (0-based); an operation yields [r, d]:
-\* r = "ok" | "err" | "panic"; after "panic" the document is unspecified (d = the document before)
+\* [bw, bh, cur, sel, layers]; an operation yields [r, d]: r = "ok" | "err" | "panic"; after "panic" the document is
+\* unspecified (d = the document before).
+\* cur = the editor's current-layer field (0-based).  (!) It is NOT adjusted when layers disappear (crop): every reader clamps it
+\* to the last layer (CurIx) - except stamp_layer_down, which uses the raw value for the layer below.  Shown = what
+\* EditState::get_current_layer reports.
 Res(r, d) == [r |-> r, d |-> d]
 NoLayer(d) == d.layers = <<>>
-Cur(d) == d.layers[d.cur + 1]
-WithCur(d, L) == [d EXCEPT !.layers[d.cur + 1] = L]
+CurIx(d) == MinI(d.cur, Len(d.layers) - 1)
+Cur(d) == d.layers[CurIx(d) + 1]
+WithCur(d, L) == [d EXCEPT !.layers[CurIx(d) + 1] = L]
+Shown(d) == [d EXCEPT !.cur = IF NoLayer(d) THEN 0 ELSE CurIx(d)]
 
 \* justify_left, justify_right, center, flip_x, flip_y
 AreaOp(d, name, fx, fy) ==
@@ -285,19 +290,18 @@ Crop(d) ==
   ELSE LET R == SelRect(d.sel)
            kept == SelectSeq(d.layers, LAMBDA L : ~Empty(Intersect(LayerRect(L), R)))
            n == Len(kept) IN
-       Res("ok", [d EXCEPT !.bw = R.w, !.bh = R.h, !.layers = [i \in 1..n |-> CropL(kept[i], R)] \o <<>>,
-                           !.cur = IF n = 0 THEN 0 ELSE MinI(@, n - 1)])
+       Res("ok", [d EXCEPT !.bw = R.w, !.bh = R.h, !.layers = [i \in 1..n |-> CropL(kept[i], R)] \o <<>>])     \* (!) cur stays
 
 \* paste: a new layer with the clipboard block above the current one; nothing selected afterwards
 Paste(d, x, y, w, h, g) ==
   IF NoLayer(d) THEN Res("err", d)
   ELSE Res("ok", [d EXCEPT !.sel = <<>>,
-                           !.layers = SubSeq(@, 1, d.cur + 1) \o <<PlainLayer(w, h, x, y, g)>> \o SubSeq(@, d.cur + 2, Len(@))])
+                           !.layers = SubSeq(@, 1, CurIx(d) + 1) \o <<PlainLayer(w, h, x, y, g)>> \o SubSeq(@, CurIx(d) + 2, Len(@))])
 
 \* stamp the current layer into the one below it (the current layer stays)
 StampDown(d) ==
   IF NoLayer(d) THEN Res("err", d)
-  ELSE IF d.cur = 0 THEN Res("panic", d)                                \* (!) index of the layer below computed as cur - 1 without a check
+  ELSE IF d.cur = 0 \/ d.cur > Len(d.layers) THEN Res("panic", d)      \* (!) the layer below is layers[cur - 1], raw cur, no check
   ELSE LET S == Cur(d)  B == d.layers[d.cur]
            dx == IF Q("stamp-offset") THEN S.ox + B.ox ELSE S.ox - B.ox  \* (!) C08-E4
            dy == IF Q("stamp-offset") THEN S.oy + B.oy ELSE S.oy - B.oy IN
